@@ -10,7 +10,7 @@ CONSTANTS XferLens, TransferLens,  \* payload lengths per protocol
           Extra,    \* arrivals beyond the number of pieces
           Moves,    \* FALSE: only the initial states (sender table)
           Export    \* TRUE: print
-Shapes == ({"xfer"} \X XferLens \X ChunkSizes) \cup ({"transfer"} \X TransferLens \X ChunkSizes)
+Shapes == ({"xfer", "xferTurbo"} \X XferLens \X ChunkSizes) \cup ({"transfer"} \X TransferLens \X ChunkSizes)
 Init == \E s \in Shapes : Start(s[1], s[2], s[3])
 Bounded == Moves /\ arrivals < N + Extra
 Next == Bounded /\ (Foreign \/ \E i \in 0..Last : Arrive(i))
